@@ -4,12 +4,16 @@ import XmppModel.Model.IbbReader
 import XmppModel.Model.IbbReaders
 import XmppModel.Model.IbbSend
 import XmppModel.Model.IbbClose
+import XmppModel.Model.IbbCloseProbe
 import XmppModel.Model.IbbBody
+import XmppModel.Model.IbbCarrier
 import XmppModel.Model.IbbTable
 /-! Driver module for C15.
 
-    C15 recv <maxbuf> <ops>    ops `,`-joined:  d:<known>:<seq>:<payloadhex>  data packet
+    C15 recv <maxbuf> <ops>    ops `,`-joined:  d:<known>:<seq>:<payloadhex>[:M<before>.<after>]  data packet
+                                                  (optional 5th field: the other children of its carrier <message/>)
                                                 c   the stream is closed (by either side)
+                                                x   a <close/> that names the sid but does not come from the stream's peer
                                                 h   local Close has sent its <close/> and waits for the answer
                                                 r:<n>   Read with a buffer of n bytes
        answer: one observation per op, `,`-joined: ack|inf|unx|bad|res  /  c  /  D<hex>|EOF|BLOCK
@@ -39,8 +43,30 @@ def parseBody (f : String) : Option (List Seg) :=
 def parseSeqField (seq : String) : Option Bytes :=
   if seq.startsWith "x" then hexDecode (seq.drop 1).toString else some seq.toUTF8.toList
 
+/-- the shape of the carrier message, 5th field of a `d:` token: `M<before>.<after>`, one digit per
+child that stands before / after the packet (codes: `Model/IbbCarrier.lean`) -/
+def parseShape (f : String) : Option (List Nat × List Nat) :=
+  match f.toList with
+  | 'M' :: r =>
+    match (String.ofList r).splitOn "." with
+    | [b, a] => do
+      let ds (t : String) : Option (List Nat) := mapM? (fun c => if c.isDigit then some (c.toNat - 48) else none) t.toList
+      let b ← ds b; let a ← ds a
+      pure (b, a)
+    | _ => none
+  | _ => none
+
 def applyOp (s : RState) (op : String) : Option (RState × String) :=
   match op.splitOn ":" with
+  | ["d", k, seq, pl, shape] => do
+    -- message carrier: the packet is one child among others of its <message/>
+    let k ← parseBool k; let b ← parseBody pl
+    let a ← parseSeqField seq
+    let (bf, af) ← parseShape shape
+    match recvMessage std s (carrierChildren bf af ⟨k, a, b⟩) with
+    | .handled s' r => pure (s', showReply r)
+    | .notIbb => pure (s, "none")
+    | .unmodelled => none
   | ["d", k, seq, pl] => do
     -- the seq field is the attribute text: plain when it is a canonical numeral, else x<hex>
     let k ← parseBool k; let b ← parseBody pl
@@ -48,6 +74,7 @@ def applyOp (s : RState) (op : String) : Option (RState × String) :=
     let r := recvBody std s ⟨k, a, b⟩
     pure (r.1, showReply r.2)
   | ["c"] => some (close s, "c")
+  | ["x"] => some (s, showReply (closeRequest s false).2)  -- a <close/> from somebody who is not the stream's peer
   | ["h"] => some (closeBegin (IbbClose.receivesWhileWaiting IbbClose.closeProgram) s, "h")
   | ["b", n, bs] => do
     -- SetReadBuffer(n) on a connection with block size bs
@@ -175,6 +202,7 @@ def parseHOp (t : String) : Option HOp :=
 
 def showHObs : HOp → HObs → String
   | _, .opened _ => "o"
+  | _, .refused => "na"
   | .closeSid _, .reply .ack => "c"
   | _, .reply r => showReply r
   | _, .closed => "c"
@@ -212,18 +240,7 @@ def handle (args : List String) : Option String :=
   | ["close", fault] =>
     -- C15 close <none|flush|send|reply|deadline>: Close with a fault at that step, then Read and a
     -- late data packet.  answer: ret=<ok|err> read=<EOF|BLOCK> data=<inf|ack>
-    let p := IbbClose.closeProgram
-    let fk : Option (Option Nat) :=
-      if fault = "none" ∨ fault = "reply" then some none
-      else if fault = "flush" then some (IbbClose.indexOf p .flush)
-      else if fault = "send" ∨ fault = "deadline" then some (IbbClose.indexOf p .sendCloseIQ)
-      else none
-    fk.map fun k =>
-      let r := IbbClose.run k p
-      let rx : RState := if r.rxClosed then Ibb.close ⟨true, 0, [], 0⟩ else ⟨true, 0, [], 0⟩
-      let rd := match readOut rx 8 with | .eof => "EOF" | .blocks => "BLOCK" | .data _ => "DATA"
-      let d := if fault = "send" then "skip" else showReply (recv std rx ⟨true, 0, []⟩).2
-      s!"ret={if r.failed then "err" else "ok"} read={rd} data={d}"
+    (IbbClose.closeOutcome fault).map fun (ret, rd, d) => s!"ret={ret} read={rd} data={d}"
   | ["open", acc] => do
     let a ← parseBool acc
     pure (if (openResult a).isSome then "conn" else "err")
